@@ -1,34 +1,100 @@
-"""Queues and servers: sources → Server chain (FIFO/LIFO/priority/CoDel/RED/adaptive-LIFO policies,
-bounded queues) → ThreadPool → Sink, under contention (concurrency 1–2)."""
+"""Queues and servers.
+
+  chain : sources → Server chain (one queue policy, bounded queues) → ThreadPool → Sink, under contention.
+  bank  : sources → Tagger (flow id, deadline, priority, weight in the context) → Fanout → one Server per queue
+          policy variant (EVERY policy the library offers: FIFO / LIFO / Priority / CoDel / RED / AdaptiveLIFO /
+          Deadline / Fair / WeightedFair, each with all constructor parameters drawn) → ThreadPool (own queue policy,
+          processing_time_extractor) / AsyncServer (CPU + I/O phase, connection limit) → Sink.
+Load regimes: light, near capacity, and SUSTAINED OVERLOAD (arrival rate a multiple of the service capacity for the
+whole run — RED between its thresholds, CoDel dropping, deadline expiry, bounded queues rejecting).
+Concurrency: plain int, FixedConcurrency, DynamicConcurrency (resized during the run by an admin entity),
+WeightedConcurrency (requests carry weights).
+Only `random.seed` / `numpy.random.seed` (seed_all) control the library's randomness here: no per-object seeds."""
 from __future__ import annotations
 
-from hv.scenarios.base import T, grid, seed_all, stats_of
+import random
+
+from hv.scenarios.base import T, dur_ms, seed_all, stats_of, sub_seed
 
 NAME = "queues"
 MODEL = "C08"
-COMPONENTS = ["Server", "ThreadPool", "QueuedResource", "QueueDriver", "Queue", "FIFOQueue", "LIFOQueue",
-              "PriorityQueue", "CoDelQueue", "REDQueue", "AdaptiveLIFO", "Sink", "Source", "ExponentialLatency",
-              "ConstantLatency", "PoissonArrivalTimeProvider", "ConstantArrivalTimeProvider"]
+COMPONENTS = ["Server", "ThreadPool", "AsyncServer", "QueuedResource", "QueueDriver", "Queue", "FIFOQueue", "LIFOQueue",
+              "PriorityQueue", "CoDelQueue", "REDQueue", "AdaptiveLIFO", "DeadlineQueue", "FairQueue",
+              "WeightedFairQueue", "FixedConcurrency", "DynamicConcurrency", "WeightedConcurrency", "Sink", "Source",
+              "ExponentialLatency", "ConstantLatency", "PoissonArrivalTimeProvider", "ConstantArrivalTimeProvider"]
 
-POLICIES = ["fifo", "lifo", "prio", "codel", "red", "alifo", "fifo-cap"]
+POLICIES = ["fifo", "lifo", "prio", "codel", "red", "alifo", "fifo-cap"]           # old cfg shape ("chain")
+BANK = ["fifo", "fifo-cap", "lifo", "prio", "prio-cap", "codel", "red", "alifo", "deadline", "fair", "wfq"]
+CONC = ["int", "fixed", "dynamic", "weighted"]
+
+
+def _red(rng):
+    lo = rng.choice([1, 2, 3, 5])
+    hi = lo + rng.choice([1, 3, 10, 40])
+    return {"min": lo, "max": hi, "p": rng.choice([0.02, 0.1, 0.3, 0.5, 1.0]),
+            "cap": rng.choice([None, hi + 1, hi + 8, 4 * hi]), "weight": rng.choice([None, 0.002, 0.05, 0.2, 0.2, 0.5, 0.9])}
 
 
 def gen_cfg(rng):
+    mode = rng.choice(["chain", "bank", "bank", "bank"])
+    n_src = rng.randint(1, 3)
+    load = rng.choice(["light", "near", "over", "over"])
     return {
+        "mode": mode,
+        "load": load,
+        # ---- chain (old shape)
         "policy": rng.choice(POLICIES),
         "hops": rng.randint(1, 3),
         "conc": [rng.randint(1, 2) for _ in range(3)],
-        "svc_ms": [rng.randint(2, 40) for _ in range(3)],
+        "svc_ms": [dur_ms(rng, 2, 40) for _ in range(3)],
         "exp": rng.random() < 0.5,
-        "sources": [{"rate": rng.choice([5, 10, 20, 40, 80]), "poisson": rng.random() < 0.6}
-                    for _ in range(rng.randint(1, 3))],
+        "sources": [{"rate": rng.choice([5, 10, 20, 40, 80]), "poisson": rng.random() < 0.6} for _ in range(n_src)],
         "cap": rng.choice([1, 2, 5]),
         "pool": rng.randint(1, 2),
-        "end": rng.choice([2.0, 3.0, 5.0]),
+        "end": rng.choice([2.0, 3.0, 5.0]) if rng.random() < 0.9 else 9.0,
+        # ---- bank
+        "policies": list(BANK) if rng.random() < 0.7 else sorted(rng.sample(BANK, rng.randint(2, 6))),
+        "bank_svc_ms": dur_ms(rng, 2, 30),
+        "bank_conc": rng.randint(1, 2),
+        "conc_model": rng.choice(CONC),
+        "dyn": {"initial": rng.randint(1, 3), "min": 1, "max": rng.choice([None, 3, 6]),
+                "changes": [[dur_ms(rng, 200, 2500), rng.choice(["up", "down", "set1", "set4"])]
+                            for _ in range(rng.randint(1, 4))]},
+        "weighted_cap": rng.choice([1, 3, 6]),
+        "max_weight": rng.randint(1, 3),
+        "flows": rng.randint(1, 6),
+        "burst": rng.choice([1, 1, 2, 5]),               # same-instant copies of every arrival
+        "red": _red(rng),
+        "codel": {"target_ms": dur_ms(rng, 1, 30), "interval_ms": dur_ms(rng, 5, 300),
+                  "cap": rng.choice([None, 5, 50])},
+        "alifo": {"thr": rng.choice([1, 1, 2, 8]), "cap": rng.choice([None, 3, 20])},
+        "deadline": {"ttl_ms": dur_ms(rng, 2, 400), "cap": rng.choice([None, 4, 30]), "clock": rng.random() < 0.85},
+        "fair": {"max_flows": rng.choice([None, 1, 2, 4]), "per_flow": rng.choice([None, 1, 3])},
+        "wfq": {"cap": rng.choice([None, 6, 30]), "per_flow": rng.choice([None, 2, 5]),
+                "weights": [rng.choice([1, 1, 2, 5]) for _ in range(6)]},
+        "lifo_cap": rng.choice([None, 1, 4, 12]),
+        "prio_cap": rng.choice([1, 3, 10]),
+        "qcap_kw": rng.choice([None, None, 0, 3]),        # Server(queue_capacity=…) instead of a policy (fifo only)
+        "pool_policy": rng.choice(["none", "lifo", "prio", "red"]),
+        "pool_extractor": rng.random() < 0.5,
+        "async": {"on": rng.random() < 0.7, "max_conn": rng.choice([1, 2, 5, 10000]),
+                  "cpu_ms": dur_ms(rng, 1, 10, zero=True), "cpu_exp": rng.random() < 0.4,
+                  "io": rng.choice(["none", "gen", "events", "single"]), "io_ms": dur_ms(rng, 1, 40)},
     }
 
 
+def gen_cfg_wide(rng):
+    """maximum-coverage configuration: every queue policy in one bank under sustained overload"""
+    cfg = gen_cfg(rng)
+    cfg.update({"mode": "bank", "policies": list(BANK), "load": rng.choice(["over", "over", "near"]),
+                "end": max(cfg["end"], 3.0)})
+    cfg["red"]["weight"] = rng.choice([0.05, 0.2, 0.5])
+    cfg["async"]["on"] = True
+    return cfg
+
+
 def _policy(cfg, sim_clock):
+    """the chain's policy (old cfg shape)"""
     from happysimulator.components.queue_policies import AdaptiveLIFO, CoDelQueue, REDQueue
     from happysimulator.components.queue_policy import FIFOQueue, LIFOQueue, PriorityQueue
 
@@ -44,11 +110,78 @@ def _policy(cfg, sim_clock):
     if p == "codel":
         return CoDelQueue(target_delay=0.005, interval=0.05, capacity=50, clock_func=sim_clock)
     if p == "red":
-        return REDQueue(min_threshold=1, max_threshold=4, max_probability=0.5, capacity=8)
+        r = cfg.get("red")
+        if r is None:
+            return REDQueue(min_threshold=1, max_threshold=4, max_probability=0.5, capacity=8)
+        return REDQueue(min_threshold=r["min"], max_threshold=r["max"], max_probability=r["p"],
+                        **_opt(capacity=r["cap"], weight=r["weight"]))
     return AdaptiveLIFO(congestion_threshold=2, capacity=20)
 
 
+def _opt(**kw):
+    return {k: v for k, v in kw.items() if v is not None}
+
+
+def _bank_policy(kind, cfg, sim_clock):
+    from happysimulator.components.queue_policies import (
+        AdaptiveLIFO, CoDelQueue, DeadlineQueue, FairQueue, REDQueue, WeightedFairQueue,
+    )
+    from happysimulator.components.queue_policy import FIFOQueue, LIFOQueue, PriorityQueue
+
+    if kind == "fifo":
+        return None if cfg["qcap_kw"] is not None else FIFOQueue()
+    if kind == "fifo-cap":
+        return FIFOQueue(capacity=cfg["cap"])
+    if kind == "lifo":
+        return LIFOQueue(**_opt(capacity=cfg["lifo_cap"]))
+    if kind == "prio":
+        return PriorityQueue(key=lambda ev: ev.context.get("prio", 0))
+    if kind == "prio-cap":
+        return PriorityQueue(capacity=cfg["prio_cap"], key=lambda ev: (ev.context.get("request_id", 0) * 7) % 3)
+    if kind == "codel":
+        c = cfg["codel"]
+        return CoDelQueue(target_delay=c["target_ms"] / 1000.0, interval=c["interval_ms"] / 1000.0,
+                          clock_func=sim_clock, **_opt(capacity=c["cap"]))
+    if kind == "red":
+        r = cfg["red"]
+        return REDQueue(min_threshold=r["min"], max_threshold=r["max"], max_probability=r["p"],
+                        **_opt(capacity=r["cap"], weight=r["weight"]))
+    if kind == "alifo":
+        a = cfg["alifo"]
+        return AdaptiveLIFO(congestion_threshold=a["thr"], **_opt(capacity=a["cap"]))
+    if kind == "deadline":
+        d = cfg["deadline"]
+        return DeadlineQueue(get_deadline=lambda ev: ev.context["deadline"],
+                             **_opt(capacity=d["cap"], clock_func=sim_clock if d["clock"] else None))
+    if kind == "fair":
+        f = cfg["fair"]
+        return FairQueue(get_flow_id=lambda ev: ev.context["flow"],
+                         **_opt(max_flows=f["max_flows"], per_flow_capacity=f["per_flow"]))
+    w = cfg["wfq"]
+    weights = w["weights"]
+    return WeightedFairQueue(get_flow_id=lambda ev: ev.context["flow"],
+                             get_weight=lambda flow: weights[int(flow.split("-")[1]) % len(weights)],
+                             **_opt(capacity=w["cap"], per_flow_capacity=w["per_flow"]))
+
+
 def build(cfg, seed):
+    if cfg.get("mode", "chain") == "bank":
+        return _build_bank(cfg, seed)
+    return _build_chain(cfg, seed)
+
+
+def _rates(cfg, capacity_per_s):
+    """arrival rates of the sources for the configured load regime"""
+    load = cfg.get("load")
+    n = len(cfg["sources"])
+    if load == "near":
+        return [0.9 * capacity_per_s / n] * n
+    if load == "over":
+        return [min(2.5 * capacity_per_s, 600.0) / n] * n
+    return [float(sc["rate"]) for sc in cfg["sources"]]
+
+
+def _build_chain(cfg, seed):
     from happysimulator.components.common import Sink
     from happysimulator.components.server import Server, ThreadPool
     from happysimulator.core.simulation import Simulation
@@ -75,9 +208,13 @@ def build(cfg, seed):
         down = s
     head = down
     sources = []
+    if cfg.get("load") in ("near", "over"):
+        rates = _rates(cfg, cfg["conc"][0] * 1000.0 / cfg["svc_ms"][0])
+    else:
+        rates = [sc["rate"] for sc in cfg["sources"]]
     for i, sc in enumerate(cfg["sources"]):
         mk = Source.poisson if sc["poisson"] else Source.constant
-        sources.append(mk(rate=sc["rate"], target=head, event_type=f"Req{i}", name=f"src{i}",
+        sources.append(mk(rate=rates[i], target=head, event_type=f"Req{i}", name=f"src{i}",
                           stop_after=cfg["end"] - 0.5))
     sim = Simulation(end_time=T(cfg["end"]), sources=sources, entities=[*servers, pool, sink])
     holder["sim"] = sim
@@ -86,4 +223,186 @@ def build(cfg, seed):
     for s in servers:
         obs[s.name] = stats_of(s)
         obs[s.name + ".q"] = (lambda s=s: {"acc": s.stats_accepted, "drop": s.stats_dropped, "depth": s.depth})
+        pol = s.queue.policy if hasattr(s.queue, "policy") else None
+        if pol is not None and hasattr(pol, "stats"):
+            obs[s.name + ".policy"] = stats_of(pol)
+    return sim, obs
+
+
+def _build_bank(cfg, seed):
+    from happysimulator.components.common import Sink
+    from happysimulator.components.queue_policies import REDQueue
+    from happysimulator.components.queue_policy import LIFOQueue, PriorityQueue
+    from happysimulator.components.server import (
+        AsyncServer, DynamicConcurrency, FixedConcurrency, Server, ThreadPool, WeightedConcurrency,
+    )
+    from happysimulator.core.entity import Entity
+    from happysimulator.core.event import Event
+    from happysimulator.core.simulation import Simulation
+    from happysimulator.core.temporal import Duration, Instant
+    from happysimulator.distributions import ConstantLatency, ExponentialLatency
+    from happysimulator.load.source import Source
+
+    seed_all(seed)
+    end = cfg["end"]
+    stop = end - 0.5
+    holder = {}
+
+    def clock():
+        return holder["sim"]._clock.now
+
+    sink = Sink("sink")
+    # event budget: every arrival is copied to every server of the bank; keep the total below ~900 copies per second
+    n_srv, burst = len(cfg["policies"]), cfg["burst"]
+    rates = [float(sc["rate"]) for sc in cfg["sources"]]
+    scale = min(1.0, 900.0 / (n_srv * burst * sum(rates)))
+    rates = [r * scale for r in rates]
+    per_server = sum(rates) * burst                 # arrivals per second at each server
+    svc = cfg["bank_svc_ms"] / 1000.0
+    conc0 = cfg["bank_conc"] if cfg["conc_model"] in ("int", "fixed") else 1
+    # load regime by service time: utilisation 0.9 ("near") or 2.5 ("over": sustained overload for the whole run)
+    if cfg.get("load") == "near":
+        svc = round(0.9 * conc0 / per_server, 4)
+    elif cfg.get("load") == "over":
+        svc = round(2.5 * conc0 / per_server, 4)
+    obs = {}
+    entities = [sink]
+
+    # ---- second stage: thread pool and async server -----------------------------------------------------------
+    pp = {"none": lambda: None, "lifo": lambda: LIFOQueue(capacity=6), "prio": lambda: PriorityQueue(capacity=6, key=lambda ev: ev.context.get("prio", 0)),
+          "red": lambda: REDQueue(min_threshold=1, max_threshold=5, max_probability=0.3, capacity=8)}[cfg["pool_policy"]]()
+    extractor = (lambda ev: (1 + ev.context.get("prio", 0) % 4) * svc / 4.0) if cfg["pool_extractor"] else None
+    pool_kw = _opt(queue_policy=pp, processing_time_extractor=extractor)
+    if pp is None:
+        pool_kw["queue_capacity"] = cfg["cap"] + 2
+    pool = ThreadPool("pool", num_workers=cfg["pool"], default_processing_time=svc / 2.0, **pool_kw)
+    entities.append(pool)
+    obs["pool"] = stats_of(pool)
+    second = [pool]
+    a = cfg["async"]
+    if a["on"]:
+        io_s = a["io_ms"] / 1000.0
+
+        def io_gen(ev):
+            yield io_s
+            return [Event(time=clock(), event_type="AsyncDone", target=sink, context=ev.context)]
+
+        def io_events(ev):
+            return [Event(time=clock() + Duration.from_seconds(io_s), event_type="AsyncDone", target=sink,
+                          context=ev.context)]
+
+        def io_single(ev):
+            return Event(time=clock(), event_type="AsyncDone", target=sink, context=ev.context)
+
+        handler = {"none": None, "gen": io_gen, "events": io_events, "single": io_single}[a["io"]]
+        cpu = a["cpu_ms"] / 1000.0
+        cpu_dist = None if cpu == 0 else (ExponentialLatency(cpu) if a["cpu_exp"] else ConstantLatency(cpu))
+        asrv = AsyncServer("async", max_connections=a["max_conn"], **_opt(cpu_work_distribution=cpu_dist,
+                                                                          io_handler=handler))
+        entities.append(asrv)
+        second.append(asrv)
+        obs["async"] = stats_of(asrv)
+        obs["async.x"] = lambda: {"active": asrv.active_connections, "peak": asrv.peak_connections,
+                                  "cpuq": asrv.cpu_queue_depth, "busy": asrv.is_cpu_busy, "util": asrv.utilization,
+                                  "avg": asrv.average_cpu_time, "p50": asrv.get_cpu_time_percentile(0.5)}
+
+    # ---- first stage: one server per policy ---------------------------------------------------------------------
+    models = []
+
+    def concurrency(i):
+        kind = cfg["conc_model"]
+        if kind == "int":
+            return cfg["bank_conc"]
+        if kind == "fixed":
+            return FixedConcurrency(cfg["bank_conc"])
+        if kind == "dynamic":
+            d = cfg["dyn"]
+            m = DynamicConcurrency(initial=d["initial"], min_limit=d["min"],
+                                   **_opt(max_limit=None if d["max"] is None else max(d["max"], d["initial"])))
+            models.append(m)
+            return m
+        return WeightedConcurrency(cfg["weighted_cap"])
+
+    servers = []
+    for i, kind in enumerate(cfg["policies"]):
+        dist = ExponentialLatency(svc) if cfg["exp"] else ConstantLatency(svc)
+        kw = {}
+        pol = _bank_policy(kind, cfg, clock)
+        if pol is not None:
+            kw["queue_policy"] = pol
+        elif cfg["qcap_kw"] is not None:
+            kw["queue_capacity"] = cfg["qcap_kw"]
+        s = Server(f"srv-{kind}", concurrency=concurrency(i), service_time=dist,
+                   downstream=second[i % len(second)], **kw)
+        servers.append((kind, s, pol))
+        entities.append(s)
+        obs[s.name] = stats_of(s)
+        obs[s.name + ".q"] = (lambda s=s: {"acc": s.stats_accepted, "drop": s.stats_dropped, "depth": s.depth,
+                                           "active": s.active_requests, "util": s.utilization})
+        if pol is not None and hasattr(pol, "stats"):
+            obs[s.name + ".policy"] = stats_of(pol)
+
+    class Tagger(Entity):
+        """adds flow id / priority / deadline / weight, then hands a copy to every server of the bank"""
+
+        def __init__(self):
+            super().__init__("tagger")
+            self.rng = random.Random(sub_seed(seed, "tagger"))
+            self.n = 0
+
+        def handle_event(self, event):
+            out = []
+            for _ in range(cfg["burst"]):
+                self.n += 1
+                r = self.rng
+                ctx = {"flow": f"flow-{r.randrange(cfg['flows'])}", "prio": r.randrange(5), "request_id": self.n,
+                       "deadline": self.now + Duration.from_seconds(cfg["deadline"]["ttl_ms"] / 1000.0 * r.random() * 2),
+                       "created_at": self.now}
+                w = r.randint(1, cfg["max_weight"])
+                for _kind, s, _pol in servers:
+                    c = dict(ctx)
+                    if cfg["conc_model"] == "weighted":
+                        c["metadata"] = {"weight": w}
+                    out.append(Event(time=self.now, event_type=event.event_type, target=s, context=c))
+            return out
+
+    class Admin(Entity):
+        """resizes the DynamicConcurrency models during the run"""
+
+        def __init__(self):
+            super().__init__("admin")
+            self.log = []
+
+        def handle_event(self, event):
+            op = event.context["op"]
+            for m in models:
+                try:
+                    if op == "up":
+                        m.scale_up(1)
+                    elif op == "down":
+                        m.scale_down(1)
+                    elif op == "set1":
+                        m.set_limit(1)
+                    else:
+                        m.set_limit(4)
+                except ValueError as e:
+                    self.log.append([self.now.nanoseconds, op, "rejected", str(e)[:40]])
+            self.log.append([self.now.nanoseconds, op, [m.limit for m in models]])
+            return None
+
+    tagger, admin = Tagger(), Admin()
+    entities += [tagger, admin]
+    sources = []
+    for i, sc in enumerate(cfg["sources"]):
+        mk = Source.poisson if sc["poisson"] else Source.constant
+        sources.append(mk(rate=rates[i], target=tagger, event_type=f"Req{i}", name=f"src{i}", stop_after=stop))
+    sim = Simulation(end_time=T(end), sources=sources, entities=entities)
+    holder["sim"] = sim
+    if cfg["conc_model"] == "dynamic":
+        for ms, op in cfg["dyn"]["changes"]:
+            sim.schedule(Event(time=Instant.from_seconds(ms / 1000.0), event_type="Resize", target=admin,
+                               context={"op": op}))
+    obs["sink"] = lambda: {"n": sink.events_received, "lat": sink.latency_stats()}
+    obs["tagger"] = lambda: tagger.n
+    obs["admin"] = lambda: admin.log
     return sim, obs
